@@ -110,6 +110,22 @@ CHECKS = {
 
 NOT_BUILT_REASON = "check not built yet in this round (work in progress; see DESIGN.md section 5 for the planned model-checking formulation)"
 
+# extensions made after the table above was written (second seeding round and self-review)
+ADDED = {
+    "C01": "part 2 explores, under the same supply oracle, the deposit / withdrawal alphabets of C10 (stake, plasma, sentinel, pillar QSR and collateral, HTLC, liquidity stake, bridge wrap / unwrap) and the reward alphabet of C11 (epoch updates after missed slots and a 23-epoch outage, collects) from their base states at depth 2 (quick) / 3 (thorough); operation Tneg hands the node a transfer whose in-memory amount is negative through the raw publication path.",
+    "C02": "a fifth scripted history deletes and re-creates a ledger key (fusion cancelled, re-fused) and then sends a block acknowledging the momentum before: historical views below the deletion are compared at every later frontier.",
+    "C03": "the world contains a data-only send (zero token standard, amount 0) that was received once; 'already-received-zero-amount-send' is a FromBlockHash domain value.",
+    "C04": "the alphabet and the first base state use a data-only transfer (zero token standard, amount 0).",
+    "C06": "two 'tick-gap' scenarios: the abandoned branch misses the rest of the fork point's election tick (at an epoch end and in mid-epoch) and continues in the next tick, the adopted branch fills the skipped slots.",
+    "C07": "the zero-length key is part of the alphabet; after every transition every open view is also read through Subset(p) (Get/Has/scans/Changes relative to p) and through a written Subset(p).Snapshot() for p in {k, ka}; thorough adds an operation that opens Subset(p).Snapshot() views.",
+    "C10": "three more families: pillar collateral (Register with / without deposit, Revoke by owner / stranger inside and outside the window, UpdatePillar; genesis pillars and a newly registered one), liquidity stakes (stake, below-minimum stake, cancel by owner / stranger / early / twice / unknown id) and bridge unwrap requests (TSS-signed and wrongly signed requests, Redeem by recipient / stranger / before the delay / twice / unknown, revocation by administrator / stranger), each audited from the ledger alone; base prefixes are executed once per worker and copied (hx SnapshotBases).",
+    "C11": "oracle (2'): the cursor moves only past rewarded epochs (liquidity: minted total == sum of the shares up to the cursor; stake / sentinel: an entry active in the epoch implies the whole share was distributed; pillar: momentums produced in the epoch imply credited ZNN); base state after an outage of 23 epochs explored with a 5-operation alphabet.",
+    "C12": "acknowledged-momentum part: 1-2 unconfirmed blocks that acknowledged the last momentum with the fusion active, then every candidate on top acknowledging that or any later momentum; accepted implies fused <= plasma(at the acknowledged momentum) - unconfirmed.",
+    "C13": "warm-follower pass: every same-hash variant is also delivered to a follower that verified and pooled the unaltered block and lost it again in a rollback of its last momentum.",
+    "C14": "the pooled child X2 of X1 carries three times the base plasma (a competitor with twice the base plasma beats X1 but not X2); the checker's build iterates the account pool's per-address map in sorted order so that schedules replay deterministically; a schedule prefix that does not reproduce its recorded execution is retried and then skipped with exhaustive=false.",
+}
+
+
 def main():
     props = [json.loads(l) for l in open('/verif/properties.jsonl')]
     checks = []
@@ -118,6 +134,8 @@ def main():
         pid = p['id']
         if pid in CHECKS:
             level, tech, text, note, ref = CHECKS[pid]
+            if pid in ADDED:
+                text += " Added later: " + ADDED[pid]
             checks.append({
                 "property_id": pid,
                 "quick_cmd": f"./run.sh {pid} quick",
